@@ -1,7 +1,7 @@
 import functools
 
 from dask.dataframe import methods
-from dask.utils import M
+from dask.utils import M, is_dataframe_like, is_series_like
 
 from dask_expr._expr import Blockwise, Expr, Projection, plain_column_projection
 
@@ -60,7 +60,57 @@ class TakeLast(Blockwise):
             if a.ndim == 1 and (a.empty or a.isna().all()):
                 return None
             a = a.ffill()
+        if a.ndim == 2:
+            # one entry per column, null if the column holds no valid value
+            if len(a) == 0:
+                return a.iloc[:0].sum().astype("float64") * float("nan")
+            return a.iloc[-1]
         return a.tail(n=1).squeeze()
+
+
+def _combine_last(aggregate, x, y):
+    """Combine the carried-over last values of the previous partitions (``x``)
+    with the last values of one more partition (``y``).
+
+    ``None`` (Series) / a null entry (one entry per column for DataFrames)
+    means that the partitions seen so far hold no valid value.
+    """
+    if y is None:
+        return x
+    if x is None:
+        return y
+    if is_series_like(x) and is_series_like(y):
+        x, y = x.reindex(y.index.union(x.index, sort=False)), y.reindex(
+            y.index.union(x.index, sort=False)
+        )
+        both = x.notna() & y.notna()
+        out = x.where(x.notna(), y)
+        if both.any():
+            out[both] = aggregate(x[both], y[both])
+        return out
+    return aggregate(x, y)
+
+
+def _apply_last(aggregate, part, last):
+    """Aggregate a cumulated partition with the last values of all previous ones"""
+    if last is None:
+        return part
+    if is_dataframe_like(part) and is_series_like(last):
+        last = last.reindex(part.columns)
+        valid = last.notna().values
+        if not valid.any():
+            return part
+        cols = part.columns[valid]
+        out = part.copy()
+        new = aggregate(part[cols], last[cols])
+        for col in cols:
+            result = new[col]
+            if part[col].dtype.kind in "iub" and result.dtype != part[col].dtype:
+                # the carried values travel in one float Series
+                result = result.astype(part[col].dtype)
+            out[col] = result
+        return out
+    return aggregate(part, last)
 
 
 class CumulativeFinalize(Expr):
@@ -85,12 +135,13 @@ class CumulativeFinalize(Expr):
             else:
                 # aggregate with previous cumulation results
                 dsk[(intermediate_name, i)] = (
-                    methods._cum_aggregate_apply,
+                    _combine_last,
                     self.aggregator,
                     (intermediate_name, i - 1),
                     (previous_partitions._name, i - 1),
                 )
             dsk[(self._name, i)] = (
+                _apply_last,
                 self.aggregator,
                 (self.frame._name, i),
                 (intermediate_name, i),
